@@ -308,14 +308,19 @@ def audit(ctx, mod):
 
 
 def _raised_in_repo(e):
-    """'file:line in func' if the innermost frame of the exception is pyYeti code (the tree under test), else None"""
+    """'file:line in func' if the exception was raised by, or from a library call made by, pyYeti code (the tree under
+    test): the innermost frame is in the tree, or the frames below the last harness frame start in the tree (e.g. a
+    numpy LinAlgError out of an `inv` that pyYeti called on a matrix it had made singular).  Else None."""
     tb = traceback.extract_tb(e.__traceback__)
     if not tb:
         return None
-    f = tb[-1]
     root = os.path.realpath(REPO) + os.sep
-    if os.path.realpath(f.filename).startswith(root):
-        return "%s:%d in %s" % (os.path.relpath(os.path.realpath(f.filename), root), f.lineno, f.name)
+    harness = os.path.realpath(os.path.join(VERIF, "harness")) + os.sep
+    last_h = max((i for i, f in enumerate(tb) if os.path.realpath(f.filename).startswith(harness)), default=-1)
+    below = tb[last_h + 1:] or tb[-1:]
+    for f in (tb[-1], below[0]):
+        if os.path.realpath(f.filename).startswith(root):
+            return "%s:%d in %s" % (os.path.relpath(os.path.realpath(f.filename), root), f.lineno, f.name)
     return None
 
 
